@@ -594,11 +594,19 @@ func (n *node) RouteLinkPID(pid gen.PID, target gen.PID) error {
 		return err
 	}
 
-	if err := connection.LinkPID(pid, target); err != nil {
+	// record the relation first: the notice of the target's termination may get
+	// here before the answer to this request does, and it must find the relation
+	if err := n.targetManager.AddLink(pid, target); err != nil {
 		return err
 	}
-
-	return n.targetManager.AddLink(pid, target)
+	if err := connection.LinkPID(pid, target); err != nil {
+		if n.targetManager.RemoveLink(pid, target) != nil {
+			// has been handled meanwhile. the exit signal is on its way
+			return nil
+		}
+		return err
+	}
+	return nil
 }
 
 func (n *node) RouteUnlinkPID(pid gen.PID, target gen.PID) error {
@@ -665,11 +673,19 @@ func (n *node) RouteLinkProcessID(pid gen.PID, target gen.ProcessID) error {
 		return err
 	}
 
-	if err := connection.LinkProcessID(pid, target); err != nil {
+	// record the relation first: the notice of the target's termination may get
+	// here before the answer to this request does, and it must find the relation
+	if err := n.targetManager.AddLink(pid, target); err != nil {
 		return err
 	}
-
-	return n.targetManager.AddLink(pid, target)
+	if err := connection.LinkProcessID(pid, target); err != nil {
+		if n.targetManager.RemoveLink(pid, target) != nil {
+			// has been handled meanwhile. the exit signal is on its way
+			return nil
+		}
+		return err
+	}
+	return nil
 }
 
 func (n *node) RouteUnlinkProcessID(pid gen.PID, target gen.ProcessID) error {
@@ -733,11 +749,19 @@ func (n *node) RouteLinkAlias(pid gen.PID, target gen.Alias) error {
 		return err
 	}
 
-	if err := connection.LinkAlias(pid, target); err != nil {
+	// record the relation first: the notice of the target's termination may get
+	// here before the answer to this request does, and it must find the relation
+	if err := n.targetManager.AddLink(pid, target); err != nil {
 		return err
 	}
-
-	return n.targetManager.AddLink(pid, target)
+	if err := connection.LinkAlias(pid, target); err != nil {
+		if n.targetManager.RemoveLink(pid, target) != nil {
+			// has been handled meanwhile. the exit signal is on its way
+			return nil
+		}
+		return err
+	}
+	return nil
 }
 
 func (n *node) RouteUnlinkAlias(pid gen.PID, target gen.Alias) error {
@@ -838,12 +862,17 @@ func (n *node) RouteLinkEvent(pid gen.PID, target gen.Event) ([]gen.MessageEvent
 		return nil, err
 	}
 
-	lastEventMessages, err := connection.LinkEvent(pid, target)
-	if err != nil {
+	// record the relation first: the publications (and the notice of the event's
+	// termination) follow the answer to this request at once and must find it
+	if err := n.targetManager.AddLink(pid, target); err != nil {
 		return nil, err
 	}
-
-	if err := n.targetManager.AddLink(pid, target); err != nil {
+	lastEventMessages, err := connection.LinkEvent(pid, target)
+	if err != nil {
+		if n.targetManager.RemoveLink(pid, target) != nil {
+			// has been handled meanwhile. the exit signal is on its way
+			return nil, nil
+		}
 		return nil, err
 	}
 
@@ -937,10 +966,19 @@ func (n *node) RouteMonitorPID(pid gen.PID, target gen.PID) error {
 		return err
 	}
 
-	if err := connection.MonitorPID(pid, target); err != nil {
+	// record the relation first: the notice of the target's termination may get
+	// here before the answer to this request does, and it must find the relation
+	if err := n.targetManager.AddMonitor(pid, target); err != nil {
 		return err
 	}
-	return n.targetManager.AddMonitor(pid, target)
+	if err := connection.MonitorPID(pid, target); err != nil {
+		if n.targetManager.RemoveMonitor(pid, target) != nil {
+			// has been handled meanwhile. the down message is on its way
+			return nil
+		}
+		return err
+	}
+	return nil
 }
 
 func (n *node) RouteDemonitorPID(pid gen.PID, target gen.PID) error {
@@ -1011,10 +1049,19 @@ func (n *node) RouteMonitorProcessID(pid gen.PID, target gen.ProcessID) error {
 		return err
 	}
 
-	if err := connection.MonitorProcessID(pid, target); err != nil {
+	// record the relation first: the notice of the target's termination may get
+	// here before the answer to this request does, and it must find the relation
+	if err := n.targetManager.AddMonitor(pid, target); err != nil {
 		return err
 	}
-	return n.targetManager.AddMonitor(pid, target)
+	if err := connection.MonitorProcessID(pid, target); err != nil {
+		if n.targetManager.RemoveMonitor(pid, target) != nil {
+			// has been handled meanwhile. the down message is on its way
+			return nil
+		}
+		return err
+	}
+	return nil
 }
 
 func (n *node) RouteDemonitorProcessID(pid gen.PID, target gen.ProcessID) error {
@@ -1081,11 +1128,19 @@ func (n *node) RouteMonitorAlias(pid gen.PID, target gen.Alias) error {
 		return err
 	}
 
-	if err := connection.MonitorAlias(pid, target); err != nil {
+	// record the relation first: the notice of the target's termination may get
+	// here before the answer to this request does, and it must find the relation
+	if err := n.targetManager.AddMonitor(pid, target); err != nil {
 		return err
 	}
-
-	return n.targetManager.AddMonitor(pid, target)
+	if err := connection.MonitorAlias(pid, target); err != nil {
+		if n.targetManager.RemoveMonitor(pid, target) != nil {
+			// has been handled meanwhile. the down message is on its way
+			return nil
+		}
+		return err
+	}
+	return nil
 }
 
 func (n *node) RouteDemonitorAlias(pid gen.PID, target gen.Alias) error {
@@ -1185,14 +1240,20 @@ func (n *node) RouteMonitorEvent(pid gen.PID, target gen.Event) ([]gen.MessageEv
 		return nil, err
 	}
 
-	lastEventMessages, err := connection.MonitorEvent(pid, target)
-	if err != nil {
-		return nil, err
-	}
-
+	// record the relation first: the publications (and the notice of the event's
+	// termination) follow the answer to this request at once and must find it
 	if err := n.targetManager.AddMonitor(pid, target); err != nil {
 		return nil, err
 	}
+	lastEventMessages, err := connection.MonitorEvent(pid, target)
+	if err != nil {
+		if n.targetManager.RemoveMonitor(pid, target) != nil {
+			// has been handled meanwhile. the down message is on its way
+			return nil, nil
+		}
+		return nil, err
+	}
+
 	return lastEventMessages, nil
 }
 
